@@ -28,6 +28,9 @@ TagsOne == {<<"h">>}
 TagsTwo == {<<"h">>, <<"a_1", "a">>}
 TagsFew == {<<"h">>, <<"a">>, <<"a_1", "a">>, <<"h", "h">>, <<"h", "r">>}
 
+\* ... and with a cast on every extra argument (a field named with its type, an explicit ::tag): <<names, types>>
+TypedSeqs == IF TagSeqs = TagsNone THEN {}
+             ELSE {<<<<"a">>, <<"float">>>>, <<<<"h", "a_1">>, <<"tag", "integer">>>>, <<<<"a">>, <<"field">>>>}
 CallNames == {"mean", "top", "bottom", "max"}
 AliasOpts == {""} \cup Aliases
 Fd(f, n, a, tags) == [f |-> f, n |-> n, a |-> a, tags |-> tags]
@@ -37,6 +40,7 @@ FieldChoices ==
   \cup (IF "call" \in Forms THEN {Fd("call", n, a, <<>>) : n \in Names \cap CallNames, a \in AliasOpts} ELSE {})
   \cup (IF "arith2" \in Forms THEN {Fd("arith2", "a_a_1", a, <<>>) : a \in AliasOpts} ELSE {})
   \cup {Fd(f, f, a, tg) : f \in Forms \cap {"top", "bottom"}, a \in AliasOpts, tg \in TagSeqs}
+  \cup {Fd(f, f, a, tg[1]) @@ [ty |-> tg[2]] : f \in Forms \cap {"top", "bottom"}, a \in AliasOpts, tg \in TypedSeqs}
   \cup (IF "lit" \in Forms THEN {Fd("lit", "", a, <<>>) : a \in AliasOpts} ELSE {})
 
 NAliased(fs) == Cardinality({i \in 1..Len(fs) : fs[i].a # ""})
@@ -65,7 +69,8 @@ ExprToks(fd) ==
                           THEN <<Id(fd.n), PT("("), IdT("v"), PT(","), Int("2"), PT(")")>>
                           ELSE <<Id(fd.n), PT("("), IdT("v"), PT(")")>>
     [] fd.f \in {"top", "bottom"} ->
-         <<Id(fd.f), PT("("), IdT("v")>> \o Flat([i \in 1..Len(fd.tags) |-> <<PT(","), Id(fd.tags[i])>>])
+         <<Id(fd.f), PT("("), IdT("v")>>
+         \o Flat([i \in 1..Len(fd.tags) |-> <<PT(","), Id(fd.tags[i])>> \o (IF "ty" \in DOMAIN fd THEN <<PT("::"), IdT(fd.ty[i])>> ELSE <<>>)])
          \o <<PT(","), Int("2"), PT(")")>>
 FieldToks(fd) == ExprToks(fd) \o (IF fd.a = "" THEN <<>> ELSE <<Kw("AS"), Id(fd.a)>>)
 
